@@ -15,7 +15,34 @@ open Store
 theorem C18_readonly_erasure (kt : KeyType) (ops : List Op) :
     ∀ (s s' : Store) (outs : List Out), s.run kt ops = some (s', outs) →
       ∃ outs', s.run kt (ops.filter Op.isUpdate) = some (s', outs') := by
-  sorry
+  induction ops with
+  | nil =>
+    intro s s' outs h
+    exact ⟨outs, by simpa using h⟩
+  | cons op ops ih =>
+    intro s s' outs h
+    simp only [Store.run] at h
+    cases hs : s.step kt op with
+    | none => simp [hs] at h
+    | some p =>
+      obtain ⟨s1, o⟩ := p
+      simp only [hs] at h
+      cases hr : Store.run kt s1 ops with
+      | none => simp [hr] at h
+      | some q =>
+        obtain ⟨s2, os⟩ := q
+        simp only [hr, Option.some.injEq, Prod.mk.injEq] at h
+        obtain ⟨outs', ho⟩ := ih s1 s2 os hr
+        cases hu : op.isUpdate with
+        | false =>
+          have h1 : s1 = s := C15_store_frame kt s s1 op o hu hs
+          refine ⟨outs', ?_⟩
+          rw [List.filter_cons_of_neg (by simp [hu]), ← h.1, ← h1]
+          exact ho
+        | true =>
+          refine ⟨o :: outs', ?_⟩
+          rw [List.filter_cons_of_pos hu]
+          simp only [Store.run, hs, ho, h.1]
 
 /-- hence two histories with the same updates, run from the same creation parameters, produce
 byte-identical files -/
@@ -24,6 +51,11 @@ theorem C18_same_updates_same_files (kt : KeyType) (n : Nat) (ops1 ops2 : List O
     (s1 s2 : Store) (o1 o2 : List Out)
     (h1 : (Store.init n).run kt ops1 = some (s1, o1)) (h2 : (Store.init n).run kt ops2 = some (s2, o2)) :
     render kt s1 = render kt s2 := by
-  sorry
+  obtain ⟨o1', e1⟩ := C18_readonly_erasure kt ops1 _ _ _ h1
+  obtain ⟨o2', e2⟩ := C18_readonly_erasure kt ops2 _ _ _ h2
+  rw [hsame, e2] at e1
+  have := congrArg Prod.fst (Option.some.inj e1)
+  simp only at this
+  rw [this]
 
 end Abyss
